@@ -145,9 +145,23 @@ func c35Engine() *Engine {
 		// not returned when the final queries began (it is killed by the process
 		// exit at an arbitrary point, nobody was told it succeeded) may leave its
 		// bucket in any in-between state: such buckets are judged by (2) only.
+		// That only applies to a request that still touched the disk after the final
+		// queries had begun; one that is parked for good (e.g. waiting for a flush
+		// acknowledgement that the stopped WAL writer will never send) changed nothing
+		// between the final queries and the exit, so its bucket is compared as well.
+		activeAfter := map[string]bool{}
+		for i := sr.finalStart; i >= 0 && i < len(sr.log); i++ {
+			if o := sr.log[i]; o.Kind != simos.OpMarker {
+				activeAfter[sr.sim.TaskName(o.Task)] = true
+			}
+		}
 		inflight := map[string]bool{}
 		for _, op := range sr.ops {
 			if op.kind == "write" && (op.ack == 0 || op.ack > sr.finalStart) {
+				if !activeAfter[fmt.Sprintf("client%d", op.client)] {
+					res.Count("parked-request-at-exit-bucket-compared", 1)
+					continue
+				}
 				for _, wr := range op.w {
 					for _, p := range wr.Parts {
 						inflight[p.B.Key()] = true
